@@ -315,6 +315,8 @@ def run(ctx):
             ctx.note("hash_order.json row no longer matches a site: " + k)
     r2(ctx)
     r3(ctx)
+    ctx.rule("R4", "transform entries that the dependency sort leaves unordered (hash order) cannot observe each other: what rewriters inherit is fixed before the first entry is applied")
+    r4(ctx)
 
 
 GUARDS = {}
@@ -515,3 +517,59 @@ R3_ALLOWED = {
     "ast_grep_config::rule_config::SerializableRuleConfig<L>": "schema/echo of rule source; not produced by scans",
     "ast_grep_config::rule_config::Metadata": "PRESENTATION: user metadata echoed in JSON; object key order only",
 }
+
+
+BORROW_ONLY = {"deref", "deref_mut", "as_ref", "borrow", "as_deref", "as_mut", "borrow_mut"}
+
+
+def r4(ctx):
+    """Transform::apply_transform_in walks `self.transforms` in the order TopologicalSort produced: entries related through `source`
+    are ordered, independent entries come in HashMap order.  That is harmless only while an entry can read nothing another independent
+    entry wrote.  The one channel besides `source` is the environment rewriters inherit (Ctx.enclosing_env): it must be loop-invariant —
+    a parameter or a value built before the loop — never a snapshot taken inside the loop (it would contain 'whatever was transformed
+    before this key', i.e. the hash order)."""
+    prog = ctx.prog
+    f0 = ctx.anchor("R4", r"^ast_grep_config::transform::Transform::apply_transform_in$")
+    if not f0:
+        return
+    f = prog.inlined(f0)
+    aggs = [(bi, st) for bi in sorted(f.live_blocks) for st in f.blocks[bi]["s"]
+            if st[0] == "A" and st[2][0] == "agg" and st[2][1].get("adt") == "ast_grep_config::transform::Ctx"]
+    ctx.floor("R4", "transform Ctx constructions", len(aggs), 1)
+    loops = f.loop_blocks()
+    ctx.ob("R4", "apply_transform_in/applies entries in a loop", bool(loops), "loop over self.transforms found" if loops else "no loop found in apply_transform_in", where=f0.loc())
+    for n, (bi, st) in enumerate(aggs):
+        ops = dict(zip(st[2][1]["fields"], st[2][2]))
+        if "enclosing_env" not in ops:
+            ctx.ob("R4", "Ctx#%d/enclosing_env" % n, False, "Ctx has no field enclosing_env any more: re-review how rewriters inherit variables", where=f0.loc(st[3]))
+            continue
+        variant = []
+        seen = set()
+        def walk(op, depth=0):
+            if op[0] == "k" or depth > 16:
+                return
+            for o in f.trace_operand(op):
+                k = (o.kind, o.ref if isinstance(o.ref, (int, str)) else id(o.ref))
+                if k in seen:
+                    continue
+                seen.add(k)
+                if o.kind == "call":
+                    c = o.ref
+                    if c.bb not in loops:
+                        continue
+                    if c.name in BORROW_ONLY and c.args:
+                        walk(c.args[0], depth + 1)
+                    else:
+                        variant.append("%s() at %s" % (c.name, f.loc(c.line)))
+                elif o.kind == "agg":
+                    if o.ref[0] in loops:
+                        for sub in o.ref[2][2]:
+                            walk(sub, depth + 1)
+                elif o.kind == "param":
+                    if f.locals[o.ref].startswith("&mut") and not [p for p in o.proj if p not in ("*", "&")]:
+                        variant.append("the &mut parameter %s, which the loop writes" % f.local_name(o.ref))
+        walk(ops["enclosing_env"])
+        ctx.ob("R4", "Ctx#%d/enclosing_env is loop-invariant" % n, not variant,
+               "the environment rewriters inherit is a parameter / built before the loop" if not variant else
+               "the environment rewriters inherit is produced inside the loop over the transform entries (%s): it contains the entries applied so far, and the order of "
+               "independent entries is the HashMap order of the `transform` map — fixes differ between runs" % "; ".join(variant[:3]), where=f0.loc(st[3]))
